@@ -9,6 +9,9 @@ else
   git apply /verif/seeded/$seed/patch.diff
 fi
 for id in "$@"; do
+  # the evidence file is rewritten by every run: keep the one from the unchanged tree
+  [ -f /verif/evidence/$id.json ] && cp /verif/evidence/$id.json /verif/build/evidence_$id.keep
   (cd /verif && ./check $id ${TIER:-quick} 2>&1 | grep -E "^(VIOLATION|INCONCLUSIVE|HELD|KNOWN|property=)" | cut -c1-300 | head -12; echo "[$seed/$id] exit=$?")
+  [ -f /verif/build/evidence_$id.keep ] && mv /verif/build/evidence_$id.keep /verif/evidence/$id.json
 done
 git -C /repo reset -q --hard HEAD; git -C /repo status --short | head
